@@ -40,7 +40,10 @@ func (o c17op) String() string {
 func c17Ops() []c17op {
 	var ops []c17op
 	for _, l := range []string{"A", "B"} {
-		for _, k := range []string{"GetFact", "SearchFacts", "ProcessEvent", "CreateLocation", "AddFact", "RemFact", "AddRule", "ClearLocation"} {
+		for _, k := range []string{"GetFact", "SearchFacts", "ProcessEvent", "CreateLocation", "AddFact", "RemFact", "AddRule", "ClearLocation", "SetCacheTTLProp"} {
+			if k == "SetCacheTTLProp" && l == "B" {
+				continue
+			}
 			ops = append(ops, c17op{k, l})
 		}
 	}
@@ -102,6 +105,10 @@ func c17Run(w World, op c17op) string {
 		return res(w.GetFact(op.Loc, "f"))
 	case "SearchFacts":
 		return res(w.SearchFacts(op.Loc, map[string]interface{}{"k": "?v"}, false))
+	case "SetCacheTTLProp":
+		// the location's own cache-TTL property, with a value that is not a number
+		// (any fact is a legal fact; the property only matters when the location is loaded)
+		return res(w.AddFact(op.Loc, "", map[string]interface{}{"!cacheTTL": "5m"}))
 	case "AddRule":
 		return res("ok", w.AddRule(op.Loc, "r", lib.JM(`{"when":{"pattern":{"e":"?e"}},"action":{"code":"'fired'"}}`)))
 	case "ProcessEvent":
@@ -151,7 +158,7 @@ func (in *c17inst) Apply(opi int) *lib.Violation {
 		wantOn = c17Run(in.refOn, op)
 	}
 	want := wantOff
-	mut := op.Kind == "AddFact" || op.Kind == "RemFact" || op.Kind == "AddRule" || op.Kind == "ClearLocation"
+	mut := op.Kind == "AddFact" || op.Kind == "RemFact" || op.Kind == "AddRule" || op.Kind == "ClearLocation" || op.Kind == "SetCacheTTLProp"
 	for _, s := range in.worlds {
 		if s.check && in.cleared[op.Loc] && mut {
 			// a write to a created-then-cleared location lands in some worlds and not
@@ -274,7 +281,7 @@ func init() {
 	lib.Register(&lib.Check{
 		ID:    "C17",
 		Level: "model_checking",
-		Rule: "explicit-state BFS (depth 4 quick / 6 thorough) over {CreateLocation, AddFact, RemFact, GetFact, SearchFacts, AddRule, ProcessEvent, ClearLocation} on two locations plus clock += 2ms, every history run simultaneously on a cache-less core.Location world and on six sys.System worlds (LocationTTL Never/1ms/Forever x CheckExistence off/on) under the virtual clock, both states; all answers must agree, refused requests to uncreated locations must leave no storage pair and no cache entry; " +
+		Rule: "explicit-state BFS (depth 4 quick / 6 thorough) over {CreateLocation, AddFact, RemFact, GetFact, SearchFacts, AddRule, ProcessEvent, ClearLocation, AddFact of a non-numeric !cacheTTL property} on two locations plus clock += 2ms, every history run simultaneously on a cache-less core.Location world and on six sys.System worlds (LocationTTL Never/1ms/Forever x CheckExistence off/on) under the virtual clock, both states; all answers must agree, refused requests to uncreated locations must leave no storage pair and no cache entry; " +
 			"non-trivial = distinct (state, request, non-empty answer) compared across the seven worlds",
 		Assumptions: []string{
 			"histories avoid expiry and schedules (C06/C07/C15 own those)",
